@@ -218,10 +218,11 @@ def main(argv):
             print('VIOLATION property=%s replay=%s' % (cid, path))
             print('  key=%s (%d witnesses) %s' % (key, len(vs), v['msg'][:600]))
         rc = 1
-    if m['inconclusive'] and rc == 0:
+    if m['inconclusive']:
         for s in m['inconclusive'][:5]:
             print('INCONCLUSIVE property=%s %s' % (cid, s[:1500]))
-        rc = 2
+        if rc == 0:
+            rc = 2
     if rc == 0:
         print('HELD property=%s on everything explored' % cid)
     return rc
